@@ -25,7 +25,8 @@ Accepted(c, b) ==
    police |-> IF Has(c, "police") THEN [k \in 1..Len(c.police) |-> Police(b, SeqToSet(c.police[k][1]), SeqToSet(c.police[k][2]))] ELSE <<>>]
 
 Cuts(b) == [n \in 1..Len(b) |-> LET p == SubSeq(b, 1, n - 1) IN [parse |-> Parse(p), hdr |-> HeaderVerdict(p).ok]]
-CutList(b, l) == [k \in 1..Len(l) |-> LET p == SubSeq(b, 1, l[k]) IN [n |-> l[k], parse |-> Parse(p), hdr |-> HeaderVerdict(p).ok]]
+CutList(b, l) == [k \in 1..Len(l) |-> LET n == IF l[k] > Len(b) THEN Len(b) ELSE l[k]  p == SubSeq(b, 1, n)
+                                    IN [n |-> n, parse |-> Parse(p), hdr |-> HeaderVerdict(p).ok]]
 
 Expect(i) ==
   LET c == Cases[i]  b == c.bytes  p == Parse(b) IN
@@ -43,9 +44,11 @@ Expect(i) ==
    cuts |-> IF Has(c, "cuts") /\ c.cuts /\ p.ok THEN Cuts(b) ELSE <<>>,
    cutlist |-> IF Has(c, "cutlist") /\ p.ok THEN CutList(b, c.cutlist) ELSE <<>>]
 
-ASSUME \A i \in 1..Len(Cases) : PrintT("EXPECT " \o ToJson(Expect(i)))
-ASSUME PrintT("JUDGED " \o ToString(Len(Cases)))
+\* (evaluated in the next-state relation, i.e. by a worker thread whose stack size -Xss governs: buffers with
+\*  thousands of attributes need a deep recursion)
 VARIABLE x
 Init == x = 0
-Next == UNCHANGED x
+Next == /\ x = 0 /\ x' = 1
+        /\ \A i \in 1..Len(Cases) : PrintT("EXPECT " \o ToJson(Expect(i)))
+        /\ PrintT("JUDGED " \o ToString(Len(Cases)))
 =============================================================================
